@@ -102,7 +102,7 @@ PROPS = {
         assumptions=['well-posed layouts', 'values on the 1/8 grid']),
     'C17': dict(
         vfile='Props/C17.v', ties=['Tie/TieEnv.v', 'Tie/TieFloor.v'],
-        families=[('floor', 400, 12000, 'small', 'large')],
+        families=[('floor', 400, 12000, 'small', 'large'), ('value', 100, 3000, 'small', 'large')],
         rule='F_floor scenarios: layered production lines (sources incl. cycle 0 and finite budgets, handlers, processors with resources/callbacks/work orders, buffers with delay and capacity, batchers, decision gates, flow controllers, shared groups reached through several paths incl. nested and re-entrant use, sinks), scripted failures/shutdowns/restores/blocking/capacity changes/budget adjustments/one-shot offsets/mid-run rewiring/devices constructed mid-run with upstream devices named in the constructor, many single steps then runs, generated from VERIF_SEED (corpus/floor first); '
              'non-trivial = a batcher is present and at least 6 parts were received; distinct by scenario text',
         explanation='Batcher invariant (an emitted batch has exactly output_batch_size parts in arrival order, unbatching emits members one by one in order, in-progress batch never exceeds the size) '
@@ -125,7 +125,7 @@ PROPS = {
         assumptions=['well-posed layouts', 'cycle times on the 1/8 grid']),
     'C08': dict(
         vfile='Props/C08.v', ties=['Tie/TieEnv.v', 'Tie/TieFloor.v'],
-        families=[('floor', 400, 12000, 'small', 'large')],
+        families=[('floor', 400, 12000, 'small', 'large'), ('value', 100, 3000, 'small', 'large')],
         rule='F_floor scenarios: layered production lines (sources incl. cycle 0 and finite budgets, handlers, processors with resources/callbacks/work orders, buffers with delay and capacity, batchers, decision gates, flow controllers, shared groups reached through several paths incl. nested and re-entrant use, sinks), scripted failures/shutdowns/restores/blocking/capacity changes/budget adjustments/one-shot offsets/mid-run rewiring/devices constructed mid-run with upstream devices named in the constructor, many single steps then runs, generated from VERIF_SEED (corpus/floor first); '
              'non-trivial = a gate or group path is present and at least 6 parts were received; distinct by scenario text',
         explanation='Local routing theorems (offers go to exactly the configured downstream neighbours, longest idle first; gates and blocked inputs refuse; history extended by the accepting device; identities preserved); and, for every exception-free history incl. every state inside a run, a handler/processor/sink that reports a waiting-for-part time (the sort key) holds nothing in either slot (Proofs/FloorWait.v, premise: the initialised world passes the computable wait_okb). and, in every reachable state of every well-formed scenario, the routing history of every part ends with the device that holds it (Proofs/FloorHist.v: with the extension lemma, histories grow by exactly the traversed devices). Group path matching (leave through the entering path) and the arrival order over a whole run are decided by the routing monitor and lock-step. PARTIAL.',
